@@ -30,6 +30,26 @@ FORCE_FORK = 'F'
 MERGE = 'M'
 
 FEAS_TIMEOUT_MS = 5000
+# Feasibility / entailment queries are an optimisation (pruning); with quantified assumptions in the path
+# condition z3 often cannot decide them.  Then the full query gets a small deterministic resource budget and,
+# if still undecided, the quantifier-free part of the path condition is asked instead (a weaker set of
+# assumptions: `unsat` is still sound, anything else counts as undecided = feasible / not entailed).
+QUANT_RLIMIT = 400000
+
+
+def _has_quantifier(t, _memo={}):
+    todo = [t]
+    seen = set()
+    while todo:
+        x = todo.pop()
+        i = x.get_id()
+        if i in seen:
+            continue
+        seen.add(i)
+        if z3.is_quantifier(x):
+            return True
+        todo.extend(x.children())
+    return False
 
 
 class PathState:
@@ -39,6 +59,10 @@ class PathState:
         self.pending = []          # alternative prefixes discovered on this run
         self.solver = z3.Solver()
         self.solver.set('timeout', FEAS_TIMEOUT_MS)
+        self.qf_solver = None      # created when the first quantified conjunct arrives
+        self._qf_dirty = False
+        self._qf_level = 0
+        self._depth = 0
         self.pc = []               # permanent conjuncts (z3 terms)
         self.scopes = []           # temporary assumptions (merge scopes)
         self.counters = {}
@@ -92,13 +116,48 @@ class PathState:
     def _add(self, t):
         self.pc.append(t)
         self.solver.add(t)
+        q = _has_quantifier(t)
+        if self.qf_solver is None and (q or self._qf_dirty):
+            # (re)build the quantifier-free mirror from the current path condition
+            self.qf_solver = z3.Solver()
+            self.qf_solver.set('timeout', FEAS_TIMEOUT_MS)
+            self._qf_level = self._depth
+            self._qf_dirty = False
+            for old in self.pc[:-1]:
+                if not _has_quantifier(old):
+                    self.qf_solver.add(old)
+            self.solver.set('rlimit', QUANT_RLIMIT)
+        if self.qf_solver is not None and not q:
+            self.qf_solver.add(t)
+
+    def push(self):
+        self.solver.push()
+        self._depth += 1
+        if self.qf_solver is not None:
+            self.qf_solver.push()
+
+    def pop(self):
+        self.solver.pop()
+        if self.qf_solver is not None:
+            if self._depth > self._qf_level:
+                self.qf_solver.pop()
+            else:
+                # the mirror was built inside the scope being left: rebuild it at the next assumption
+                self.qf_solver = None
+                self._qf_dirty = True
+        self._depth -= 1
 
     def check(self, *extra):
         """sat / unsat / unknown of pc + scopes + extra."""
         self.stats['feasibility_queries'] = self.stats.get('feasibility_queries', 0) + 1
         import time as _t
         t0 = _t.time()
-        r = self.solver.check(*(list(self.scopes) + list(extra)))
+        assumptions = list(self.scopes) + list(extra)
+        r = self.solver.check(*assumptions)
+        if r == z3.unknown and self.qf_solver is not None:
+            self.stats['qf_fallbacks'] = self.stats.get('qf_fallbacks', 0) + 1
+            if self.qf_solver.check(*assumptions) == z3.unsat:
+                r = z3.unsat
         dt = _t.time() - t0
         if dt > 1.0:
             self.stats.setdefault('slow_queries', []).append((round(dt, 2), str(r), [str(e)[:200] for e in extra]))
